@@ -6,7 +6,9 @@ cd /verif || exit 2
 export GOFLAGS=-mod=mod GOPROXY=off GOTOOLCHAIN=local GONOSUMDB='*' GONOSUMCHECK=1 GOFLAGS="-mod=mod"
 export VERIF_SCRATCH="${VERIF_SCRATCH:-${TMPDIR:-/tmp}}"
 mkdir -p bin
-if ! (cd harness && go build -tags verif -o /verif/bin/verif ./cmd/verif) >bin/build.log 2>&1; then
+if ! (cd harness && go build -tags verif -o /verif/bin/verif ./cmd/verif \
+      && go build -tags verif -o /verif/bin/cbtemulator github.com/fullstorydev/emulators/bigtable/cmd/cbtemulator \
+      && go build -tags verif -o /verif/bin/gcsemulator github.com/fullstorydev/emulators/storage/cmd/gcsemulator) >bin/build.log 2>&1; then
   echo "INCONCLUSIVE: harness build failed"; tail -20 bin/build.log; exit 2
 fi
 exec bin/verif check --property "$1" --tier "${2:-quick}"
